@@ -1220,5 +1220,5 @@ def _is_sorted(ctx: Ctx, f: Func, arg: Optional[ast.AST], depth: int = 0) -> Tup
 
 
 # what the later rounds (seeding rounds 2-5, refactor twins, defect hunt) added to what the check decides
-LATER_ROUNDS = "a refused line leaves the operator as it was, eq/neq operands are a set, the empty expression writes back, the range-string codec skips no piece"
+LATER_ROUNDS = "a refused line leaves the operator as it was, eq/neq operands are a set, the empty expression writes back, the range-string codec skips no piece, the range-string encoder walks sorted input"
 EXPLANATION = EXPLANATION.replace(" Does not decide", " Later rounds added: " + LATER_ROUNDS + ". Does not decide", 1) if " Does not decide" in EXPLANATION else EXPLANATION + " Later rounds added: " + LATER_ROUNDS + "."
